@@ -232,6 +232,44 @@ def construction_routes(tier, rng, rep):
             rep.fail("builtin_file_table_and_own_history", f"{name}: {err}", inp)
 
 
+@bounded(P, "pruning_all_insertion_orders", functions=[A + "FSA.recurrent", A + "FSA.delete_vertex", A + "FSA.delete_vertices"],
+         note="pruning (recurrent) of every 3-state automaton over 2 labels for every insertion order of its states, in place and not: the result is the set model's greatest recurrent sub-automaton")
+def pruning_all_insertion_orders(tier, rng, rep):
+    import itertools
+    three = list(all_deterministic_automata(3, LABELS))
+    orders = list(itertools.permutations(range(3)))
+    cases = [(d, o) for d in three for o in orders]
+    if tier != 'thorough':
+        cases = [cases[i] for i in rng.choice(len(cases), size=6000, replace=False)]
+    rep.rule = "all 4096 transition tables on 3 states over {a,b} x 6 insertion orders of the states (thorough: exhaustive, quick: 6000 sampled) x {inplace, copy}; non-trivial = the pruning needs more than one pass"
+    rep.bound = f"{len(cases)} automata"
+    rep.exhaustive = tier == 'thorough'
+    for d, order in cases:
+        dd = {v: dict(d[v]) for v in order}
+        M = Model.from_graph_dict(dd)
+        keep = M.recurrent_vertices()
+        M2 = M.copy()
+        for v in list(M2.V - keep):
+            M2.delete_vertex(v)
+        inp = {"graph_dict_in_insertion_order": {str(k): v for k, v in dd.items()}}
+        for inplace in (True, False):
+            try:
+                F = fsa.FSA(copy.deepcopy(dd), [order[0]])
+                G = F.recurrent(inplace=inplace)
+                G = F if inplace else G
+                err = coherence_error(G, M2)
+                if not err and not inplace:
+                    err = coherence_error(F, M)
+                    err = err and "the original automaton changed: " + err
+            except Exception as e:
+                err = f"raised {type(e).__name__}: {e}"
+            if err:
+                rep.fail("pruning_matches_the_set_model", f"inplace={inplace}: {err}", {**inp, "inplace": inplace})
+                if len(rep.failures) >= 3:
+                    return
+        rep.case(key=(repr(dd),), nontrivial=len(keep) not in (0, 3))
+
+
 def _read_table(text):
     """independent reader of a kbmag word-acceptor record: alphabet names, dense transition table, initial state"""
     flat = re.sub(r"\s+", "", text)
